@@ -17,6 +17,8 @@ TInit == /\ conf = CHOOSE c \in AllConfs : TRUE
 Guard(e) == CASE e.a = "Call" -> e.adm = CallExpected(e.lvl, e.now)
               [] e.a = "Log" -> e.adm = LogExpected(e.lvl, e.now)
               [] e.a = "Toggle" -> TRUE
+              \* a child made with Sample(nil): no sampler - written iff it passes the levels; no effect on the parent's sampler
+              [] e.a = "Unsampled" -> e.written = (IF PassesGate(e.lvl) /\ e.lvl # Disabled THEN 1 ELSE 0)
               [] OTHER -> FALSE
 Effect(e) == CASE e.a = "Call" -> CallEff(e.lvl, e.now)
                [] e.a = "Log" -> LogEff(e.lvl, e.now)
